@@ -498,8 +498,32 @@ def r5(db, rep):
                 elif x["k"] == "CXXOperatorCallExpr" and x.get("op") in ("&", "|", "^", "+", "-") and len(x["c"]) == 3 and \
                         ADDR(x.get("callee") or ""):
                     ops.append((x, x["op"], x["c"][2]))
+            # the same element-wise operation through std::transform: the operation is the standard functor's
+            # (std::bit_and / bit_or / bit_xor / bit_not) or what a file-local function handed over by name computes
+            tinv = []
+            for x in facts.fn_nodes(f):
+                if x["k"] == "CallExpr" and x.get("cname") == "transform" and len(x["c"]) >= 5:
+                    fo = facts.strip_all(x["c"][-1])
+                    while fo["k"] in ("CXXConstructExpr", "MaterializeTemporaryExpr", "CXXTemporaryObjectExpr", "CXXBindTemporaryExpr", "CXXFunctionalCastExpr") and \
+                            len(fo.get("c", [])) == 1:
+                        fo = facts.strip_all(fo["c"][0])
+                    tn = ((facts.ty(f, fo) or {}).get("s") or "") + (fo.get("crec") or "")
+                    for nm_, o_ in (("bit_and", "&"), ("bit_or", "|"), ("bit_xor", "^")):
+                        if "std::" + nm_ in tn:
+                            ops.append((x, o_, x["c"][3]))
+                    if "std::bit_not" in tn:
+                        tinv.append(x)
+                    fr_ = [y for y in facts.walk(x["c"][-1]) if y["k"] == "DeclRefExpr" and y.get("fn")]
+                    if fr_:
+                        h_ = db.fn(fr_[0]["fn"])
+                        if h_ is not None and h_.get("body") and not h_.get("rec"):
+                            for y in facts.fn_nodes(h_):
+                                if y["k"] == "BinaryOperator" and y["op"] in ("&", "|", "^", "+", "-"):
+                                    ops.append((x, y["op"], y["c"][1]))
+                                if y["k"] == "UnaryOperator" and y.get("op") == "~":
+                                    tinv.append(x)
             if op == "~":
-                inv = [x for x in facts.fn_nodes(f) if x["k"] == "UnaryOperator" and x.get("op") == "~"]
+                inv = [x for x in facts.fn_nodes(f) if x["k"] == "UnaryOperator" and x.get("op") == "~"] + tinv
                 others_ = [x for x, o_, _ in ops if not is_index_arith(f, x)]
                 if inv and not others_:
                     rep.ok("R5-mask-ops", key, facts.loc(f, inv[0]), "element = ~a")
